@@ -289,11 +289,22 @@ def repo_tests_trace(rep, work, regex, timeout=1500, skip_heavy=False):
     env = dict(vlib.GOENV, VERIF_TRACE_DIR=tdir)
     env.pop("CGO_ENABLED", None)
     # two tests assign the collection's sections directly (white-box), which is not a behaviour of the library
-    p = subprocess.run(["go", "test", "-tags", "verif", "-vet=off", "-count=1", "-timeout", "25m", "-run", regex,
-                        "-skip", "TestIteratorMergeOps_MB19667|TestPersistMergeOps_MB19667" + ("|" + HEAVY_TESTS if skip_heavy else ""), "."],
-                       cwd=vlib.REPO, env=env, capture_output=True, text=True, timeout=timeout)
-    if p.returncode != 0 and "ok" not in p.stdout:
-        log("repository tests (tag verif) did not pass; their traces are validated anyway:\n" + (p.stdout + p.stderr)[-600:])
+    # (measured: 15 s without the bulk loaders, 80 s with them; a test that hangs is cut off by go test's own timeout,
+    # which names it; the events recorded until then are still validated and the hang is reported as an infrastructure
+    # problem of this run -- exit 2 unless something else is a violation)
+    gotimeout = "4m" if skip_heavy else "25m"
+    try:
+        p = subprocess.run(["go", "test", "-tags", "verif", "-vet=off", "-count=1", "-timeout", gotimeout, "-run", regex,
+                            "-skip", "TestIteratorMergeOps_MB19667|TestPersistMergeOps_MB19667" + ("|" + HEAVY_TESTS if skip_heavy else ""), "."],
+                           cwd=vlib.REPO, env=env, capture_output=True, text=True, timeout=(400 if skip_heavy else timeout))
+        out, rc = p.stdout + p.stderr, p.returncode
+    except subprocess.TimeoutExpired as e:
+        out, rc = "timed out: %s" % e, -1
+    if rc != 0 and "\nok" not in "\n" + out:
+        hung = re.findall(r"^\s+(Test\S+) \(", out, re.M)[:3] if "test timed out" in out else []
+        if "test timed out" in out or rc == -1:
+            rep.infra.append("the repository's tests (tag verif) did not finish within %s (running: %s); the events recorded until then are validated" % (gotimeout, ", ".join(hung) or "?"))
+        log("repository tests (tag verif) did not pass; their traces are validated anyway:\n" + out[-600:])
     recs = []
     ncoll = 0
     for fn in sorted(os.listdir(tdir)):
@@ -354,7 +365,7 @@ def repo_tests_trace(rep, work, regex, timeout=1500, skip_heavy=False):
 
 
 SYNC_BASE = {"NWriters": "2", "MaxBatches": "2", "MaxPre": "1", "PingCap": "1", "NNotifiers": "1", "SyncNotify": "FALSE",
-             "HasLL": "TRUE", "MaxLLFails": "1", "WithClose": "TRUE", "Devs": "{}"}
+             "HasLL": "TRUE", "MaxLLFails": "1", "WithClose": "TRUE", "DirtyWait": "FALSE", "Devs": "{}"}
 
 
 def sync_cfg(path, consts, invs, props):
@@ -377,7 +388,8 @@ def c16(tier):
     vlib.build_harness(("conc", "syncscen"))
     sd = vlib.seed()
     # (a) the design
-    plans = [("sync_async", {}), ("sync_pong", {"SyncNotify": "TRUE"})]
+    # sync_dirty: MaxDirtyOps back-pressure at its worst (the merger waits for the persister after every cycle that leaves anything dirty)
+    plans = [("sync_async", {}), ("sync_pong", {"SyncNotify": "TRUE"}), ("sync_dirty", {"DirtyWait": "TRUE"}), ("sync_dirty_noclose", {"DirtyWait": "TRUE", "WithClose": "FALSE"})]
     if not q:
         plans += [("sync_nofail_3b", {"MaxBatches": "3", "MaxLLFails": "0", "NNotifiers": "0"}), ("sync_cap2", {"PingCap": "2", "NNotifiers": "2"}),
                   ("sync_mem", {"HasLL": "FALSE", "MaxBatches": "3"})]
@@ -395,7 +407,10 @@ def c16(tier):
             rep.exhaustive = True
     # (b) deviations must produce counterexamples on the model; their schedules are replayed on the code
     for name, over, scen, trials in [("sync_dev_l10", {"Devs": '{"PersisterNotifyBlocksUnderLock"}', "NNotifiers": "2"}, "l10", 1),
-                                     ("sync_dev_l24", {"Devs": '{"ExitIgnoresQueuedPings"}', "SyncNotify": "TRUE"}, "l24", 10 if q else 40)]:
+                                     ("sync_dev_l24", {"Devs": '{"ExitIgnoresQueuedPings"}', "SyncNotify": "TRUE"}, "l24", 10 if q else 40),
+                                     # a hypothetical deviation (never a defect of the tree): the model must deadlock without the
+                                     # persister's close of waitDirtyOutgoingCh; on the code the free-running maxDirty runs of (c) cover it
+                                     ("sync_dev_out", {"Devs": '{"PersisterDoesNotCloseOutgoing"}', "DirtyWait": "TRUE", "WithClose": "FALSE"}, None, 0)]:
         c = dict(SYNC_BASE)
         c.update(over)
         cfg = os.path.join(work, name + ".cfg")
